@@ -1,5 +1,5 @@
 """Human-written MANIFEST text per property."""
-HOOK_COMMITS = ["c101db8", "bbfdbf8", "afc22c3", "cec08e0", "3844b5e", "89b4aea"]
+HOOK_COMMITS = ["c101db8", "bbfdbf8", "afc22c3", "cec08e0", "3844b5e", "89b4aea", "e6143e8"]
 
 NOT_APPLICABLE = {}
 
